@@ -9,13 +9,13 @@ use crate::world::World;
 use num_bigint::BigUint;
 use serde_json::{json, Value};
 
-pub fn isolated_c03(_t: Tier, i: usize) -> bool {
+pub fn isolated_c03(t: Tier, i: usize) -> bool {
     // every other two-caller run: a fresh process (first-use races); the rest run in a worker that
     // has executed other runs before (tables warm, several keys seen)
-    two_caller_run_c03(i) && i % 2 == 0
+    two_caller_run_c03(t, i) && i % 2 == 0
 }
-fn two_caller_run_c03(i: usize) -> bool {
-    (2..26).contains(&i)
+fn two_caller_run_c03(t: Tier, i: usize) -> bool {
+    (2..2 + t.pick(24, 480)).contains(&i)
 }
 
 pub fn runs_c03(t: Tier) -> usize {
@@ -94,7 +94,7 @@ pub fn run_c03(p: &mut Prng, _t: Tier, i: usize, sink: &mut Sink) {
         }
         w.bump("history.very-large-inputs");
     }
-    if two_caller_run_c03(i) {
+    if two_caller_run_c03(_t, i) {
         // Two signers with different keys on two simulated caller threads, in a worker process of
         // their own (nothing in the library has been used yet). Three shapes: both cold; one key
         // already used (a hit beside a miss in whatever the library memoises); a signature beside
